@@ -3,7 +3,7 @@
 //! Case lines (see /verif/lean/YashModel/Arith/Main.lean):
 //!   `E <env> <text> [<tree>]`  env = `-` or `name:value,…` (hex), text hex, tree in Polish notation
 //!   `P …`                      the same with `Config { portable: true }`
-//!   `W <extra> <env> <text>`   a text with non-ASCII alphanumerics (`V …` = portable): `extra` = those characters
+//!   `W <extra> <env> <text> [<tree>]`  a text with non-ASCII alphanumerics (`V …` = portable): `extra` = those characters
 //!                              (hex), the parameter of the model's Unicode tokenizer; full observation
 //!   `U <text>`                 legacy (replays of earlier rounds): totality only
 //!   `S <opts> <globals> <kind> <locals> <exprs>`  shell-level scenario: arithmetic expansions run by the
@@ -651,7 +651,14 @@ fn make_case(text: String, env: &Env, tree: Option<&Ex>) -> Case {
     let extra = extra_alnum(&text);
     let line = if !extra.is_empty() {
         // text with non-ASCII alphanumerics: full observation; the Spec (ASCII C lexer) is silent
-        format!("W {} {} {}", enc_str(&extra), enc_env(env), enc_str(&text))
+        let mut l = format!("W {} {} {}", enc_str(&extra), enc_env(env), enc_str(&text));
+        if let Some(t) = tree {
+            let mut p = vec![];
+            polish(t, &mut p);
+            l.push(' ');
+            l.push_str(&p.join(" "));
+        }
+        l
     } else {
         let mut l = format!("E {} {}", enc_env(env), enc_str(&text));
         if let Some(t) = tree {
@@ -696,7 +703,7 @@ fn parse_case(line: &str) -> Option<Case> {
             let text = render(&t, 0, (line.len() % 2) as u8, &mut r);
             Some(Case { portable: false, line: line.to_string(), text, env, tree: Some(t), unicode_only: false })
         }
-        [k @ ("W" | "V"), x, e, t] => {
+        [k @ ("W" | "V"), x, e, t, tree @ ..] => {
             let mut env = Env::new();
             if *e != "-" {
                 for item in e.split(',') {
@@ -708,7 +715,17 @@ fn parse_case(line: &str) -> Option<Case> {
             if dec_str(x)? != extra_alnum(&text) {
                 return None;
             }
-            Some(Case { portable: *k == "V", line: line.to_string(), text, env, tree: None, unicode_only: false })
+            let tree = if tree.is_empty() {
+                None
+            } else {
+                let mut it = tree.iter();
+                let t = unpolish(&mut it, 0)?;
+                if it.next().is_some() {
+                    return None;
+                }
+                Some(t)
+            };
+            Some(Case { portable: *k == "V", line: line.to_string(), text, env, tree, unicode_only: false })
         }
         [k @ ("E" | "P"), e, t, tree @ ..] => {
             let mut env = Env::new();
@@ -1072,8 +1089,8 @@ fn plain_word(s: &str) -> bool {
 /// that `convert_error_cause` can produce; the two token errors share one)
 fn error_cause(stderr: &str) -> String {
     const TABLE: [(&str, &str); 17] = [
-        ("invalid numeric constant", "token"),
-        ("invalid character", "token"),
+        ("invalid numeric constant", "numconst"),
+        ("invalid character", "badchar"),
         ("incomplete expression", "incomplete"),
         ("expected an operator", "missingop"),
         ("unmatched parenthesis", "paren"),
